@@ -53,6 +53,7 @@ fn gen_c19_world(rng: &mut Rng, strict: bool) -> WorldSpec {
         }
     }
     cfg.partials = partials.names().iter().map(|n| gen::invocation_name(n)).collect();
+    cfg.stored = partials.names();
     cfg.absent = partials.absent.clone();
     let nt = 1 + rng.below(2);
     let nd = 1 + rng.below(2);
